@@ -3183,7 +3183,7 @@ where
         } else {
             scanners::link_title(&subj.input[subj.pos..])
         };
-        let title = match title_search {
+        let mut title = match title_search {
             Some(matchlen) => {
                 let t = &subj.input[subj.pos..subj.pos + matchlen];
                 subj.pos += matchlen;
@@ -3198,7 +3198,9 @@ where
         subj.skip_spaces();
         if !subj.skip_line_end() {
             if !title.is_empty() {
+                // The title is not part of the definition: its line is given back to the paragraph.
                 subj.pos = beforetitle;
+                title.clear();
                 subj.skip_spaces();
                 if !subj.skip_line_end() {
                     return None;
